@@ -1021,11 +1021,32 @@ func c12StagingFilePerMessage(c *Check, rule string) {
 	for i, e := range created {
 		c.Hold(rule, "updateMetadataOnDisk:create"+itoa(i+1), e.Pos(), perMsg(e, 0), "the file the new record is written to ("+exprStr(e)+") is not named after the message: two attempts that end at the same time write into one file – a message is stored with another message's recipients, or not at all")
 	}
+	resolved := func(e ast.Expr) string {
+		if o := objOf(info, e); o != nil && localIn(body, o) {
+			if d, n := localDef(info, body, o); n == 1 && d != nil {
+				return exprStr(d)
+			}
+		}
+		return exprStr(e)
+	}
 	for i, e := range renamedFrom {
 		same := false
 		for _, cr := range created {
-			if exprStr(cr) == exprStr(e) {
+			if exprStr(cr) == exprStr(e) || resolved(cr) == resolved(e) {
 				same = true
+			}
+			// the created path is a local with one definition per platform (`p := meta + ".new"; if windows { p = meta }`)
+			if o := objOf(info, cr); o != nil && localIn(body, o) {
+				ast.Inspect(body, func(z ast.Node) bool {
+					if as, ok := z.(*ast.AssignStmt); ok && len(as.Lhs) == len(as.Rhs) {
+						for i, l := range as.Lhs {
+							if objOf(info, l) == o && (exprStr(as.Rhs[i]) == exprStr(e) || exprStr(as.Rhs[i]) == resolved(e)) {
+								same = true
+							}
+						}
+					}
+					return true
+				})
 			}
 		}
 		c.Hold(rule, "updateMetadataOnDisk:rename"+itoa(i+1), e.Pos(), same && perMsg(e, 0), "the rename's source ("+exprStr(e)+") is not the per-message file that was written")
